@@ -20,15 +20,27 @@ pub(super) struct MulAddFusion<F> {
     use_counts: HashMap<WitnessId, usize>,
     defs: HashMap<WitnessId, IndexedDef<F>>,
     backwards_computed: HashMap<WitnessId, usize>,
+    /// Slots that hold a value before the first op runs (private inputs).
+    predefined: hashbrown::HashSet<WitnessId>,
+    /// How many ops write each slot (`Const`/`Public`/ALU `out`, hint and non-primitive outputs).
+    write_counts: HashMap<WitnessId, usize>,
 }
 
 impl<F: Field> MulAddFusion<F> {
     /// Scans `ops` to build use-counts, definitions, and backwards-op tracking.
     pub(super) fn new(ops: &[Op<F>]) -> Self {
+        Self::with_predefined(ops, &[])
+    }
+
+    /// Like [`Self::new`], additionally told which slots are set before execution starts
+    /// (private inputs): an op whose `out` is such a slot solves for an operand instead.
+    pub(super) fn with_predefined(ops: &[Op<F>], predefined: &[WitnessId]) -> Self {
         let mut fusion = Self {
             use_counts: HashMap::new(),
             defs: HashMap::with_capacity(ops.len()),
             backwards_computed: HashMap::new(),
+            predefined: predefined.iter().copied().collect(),
+            write_counts: HashMap::new(),
         };
         fusion.scan_use_counts(ops);
         fusion.scan_defs(ops);
@@ -55,7 +67,13 @@ impl<F: Field> MulAddFusion<F> {
     }
 
     fn is_backwards(&self, idx: usize, out: &WitnessId) -> bool {
-        self.def_idx(out).is_some_and(|i| i < idx)
+        self.predefined.contains(out) || self.def_idx(out).is_some_and(|i| i < idx)
+    }
+
+    /// True when the product slot is written only by its `Mul` and holds no input: once
+    /// fused it leaves every table, so anything else tied to it would lose that tie.
+    fn is_private_to_mul(&self, id: &WitnessId) -> bool {
+        !self.predefined.contains(id) && self.write_counts.get(id).copied().unwrap_or(0) <= 1
     }
 
     /// Inserts a def unless the witness is already a Const (connect aliasing).
@@ -80,19 +98,38 @@ impl<F: Field> MulAddFusion<F> {
     fn scan_use_counts(&mut self, ops: &[Op<F>]) {
         for op in ops {
             match op {
-                Op::Alu { a, b, c, .. } => {
+                Op::Alu { a, b, c, out, .. } => {
                     *self.use_counts.entry(*a).or_default() += 1;
                     *self.use_counts.entry(*b).or_default() += 1;
                     if let Some(c) = c {
                         *self.use_counts.entry(*c).or_default() += 1;
                     }
+                    *self.write_counts.entry(*out).or_default() += 1;
                 }
-                Op::NonPrimitiveOpWithExecutor { inputs, .. } => {
+                Op::NonPrimitiveOpWithExecutor {
+                    inputs, outputs, ..
+                } => {
                     for &id in inputs.iter().flatten() {
                         *self.use_counts.entry(id).or_default() += 1;
                     }
+                    for &id in outputs.iter().flatten() {
+                        *self.write_counts.entry(id).or_default() += 1;
+                    }
                 }
-                _ => {}
+                Op::Hint {
+                    inputs, outputs, ..
+                } => {
+                    // A hint reads its inputs from the witness, so they count as uses.
+                    for &id in inputs {
+                        *self.use_counts.entry(id).or_default() += 1;
+                    }
+                    for &id in outputs {
+                        *self.write_counts.entry(id).or_default() += 1;
+                    }
+                }
+                Op::Const { out, .. } | Op::Public { out, .. } => {
+                    *self.write_counts.entry(*out).or_default() += 1;
+                }
             }
         }
     }
@@ -198,8 +235,11 @@ impl<F: Field> MulAddFusion<F> {
         let (mul_a, mul_b) = indexed.def.as_mul()?;
         let mul_idx = indexed.idx;
 
-        // Single-use, non-const mul
-        if self.uses(&mul_result) != 1 || self.is_const(&mul_result) {
+        // Single-use, non-const mul whose slot nothing else writes or provides
+        if self.uses(&mul_result) != 1
+            || self.is_const(&mul_result)
+            || !self.is_private_to_mul(&mul_result)
+        {
             return None;
         }
 
